@@ -44,6 +44,59 @@ translate_tie.describe(PROPERTIES, "C20", "(here: the ten marshalBinary/unmarsha
                        translate_tie.TIE_NOTE_INT, translate_tie.TIE_NOTE_SLICE)
 
 
+
+def _wire_stage(res):
+    """ACTION-SEQUENCE TIE (DESIGN.md 9.6 "Action-sequence tie for the netlink walkers"): the CURRENT text of Info.decode,
+    Info.encode, linkInfoMsg.decode, linkInfoMsg.encode and Device.unmarshalBinary in pkg/candevice/device_linux.go is read by
+    the strict extractor harness/netwire (one node per statement: depth + canonical text; unknown statement shapes are errors
+    with file:line) and compared node by node with the reference programs of Netlink/Program.v (info_walk, linkinfo_walk,
+    device_walk, info_encode_prog, linkinfo_encode_prog, rendered by the driver), which C20_decode_program_is_model /
+    C20_encode_program_is_model prove to BE the hand model of Netlink/Attr.v when executed step by step."""
+    import json as _json, os as _os, shutil as _sh, subprocess, time as _t
+    t0 = _t.time()
+    scratch = vlib.scratch_dir()
+    try:
+        wexe, log = vlib.build_harness("netwire", scratch)
+        if wexe is None:
+            res.violation("netlink action-sequence extractor no longer builds (broken tie)", {"build_log": log[-3000:]}, no_input=True)
+            return
+        drv = vlib.build_driver("netlink")
+        src = _os.path.join(vlib.REPO, "pkg", "candevice", "device_linux.go")
+        p = subprocess.run(["bash", "-c", "timeout 120 %s %s | %s wire" % (wexe, src, drv)],
+                           stdout=subprocess.PIPE, stderr=subprocess.PIPE, text=True)
+    finally:
+        _sh.rmtree(scratch, ignore_errors=True)
+    how = ("harness/netwire <repo>/pkg/candevice/device_linux.go | netlink driver `wire` (reference programs of Netlink/Program.v); "
+           "the correspondence run of this check supplies a concrete failing input where the behaviour changed")
+    stat, reported = None, 0
+    for line in p.stdout.splitlines():
+        text = None
+        if line.startswith("NWSTAT "):
+            stat = _json.loads(line[7:])
+        elif line.startswith("NWERR "):
+            text = "device_linux.go walker is outside the statement shapes the action-sequence extractor accepts: %s" % line[6:][:400]
+        elif line.startswith(("NWDIFF ", "NWMISSING ", "NWUNKNOWN ")):
+            head, _, detail = line.partition(" || ")
+            toks = head.split()
+            text = ("action sequence of %s is no longer the reference program the netlink model was proved for (%s): %s"
+                    % (toks[1], " ".join(toks[2:]), detail[:500]))
+        if text:
+            reported += 1
+            if reported <= 3:
+                res.violation(text, {"line": line, "how": how}, no_input=True)
+    if stat is None:
+        res.violation("netlink action-sequence extractor or model driver failed (rc=%s)" % p.returncode,
+                      {"stderr": p.stderr[-2000:], "stdout_tail": p.stdout[-800:]}, no_input=True)
+        return
+    res.cov["action_sequence_tie"] = dict(stat, wall_s=round(_t.time() - t0, 1), rule=(
+        "the five attribute walkers of device_linux.go, statement by statement (signature, depth, canonical text: loop, switch, "
+        "case constants, case bodies, error check placement, encoder calls) against the Coq reference programs"))
+    res.corr_obligations = list(res.corr_obligations) + [
+        "the statement sequences of Info.decode/encode, linkInfoMsg.decode/encode and Device.unmarshalBinary read from the current "
+        "source text equal the reference programs of Netlink/Program.v, which are proved to be the hand model "
+        "(C20_decode_program_is_model, C20_encode_program_is_model)"]
+
+
 def run(res, replay=None):
     if replay:
         # a replay names the harness invocation (seed, tier) that produced the observation: re-run exactly that
@@ -54,6 +107,8 @@ def run(res, replay=None):
     vlib.proof_stage(res)
     translate_tie.run_tie(res, ["netlink"])
     scale = 1 if res.tier == "quick" else 50
+    _wire_stage(res)
+    wire_obl = list(res.corr_obligations)
     vlib.standard_run(
         res, "netlink", [res.seed, scale], "netlink", RULE,
         ["the Gallina models Netlink/Layout.v and Netlink/Attr.v are faithful transcriptions of device_linux.go:309-569: "
@@ -66,3 +121,4 @@ def run(res, replay=None):
          "images are compared with the C layouts of Netlink/LayoutSpec.v on every layout case"],
         corr_name="device_linux.go codec helpers + real netlink attribute codec = extracted Netlink model on every "
                   "generated case (harness/netlink | ocaml/netlink_main.ml)")
+    res.corr_obligations = list(res.corr_obligations) + wire_obl
